@@ -148,14 +148,97 @@ def inputs(rng, tier):
     return out, kinds
 
 
+def float_pool(rng, tier):
+    """Binary64 values for the correspondence of the float-spelling model (JsonFloatModel.v) with serde_json/ryu: the switch-over
+    points of ryu's five layouts, powers of ten and of two, the ends of the subnormal and normal ranges, integers around 2^53,
+    values whose shortest spelling has 1..17 digits, random bit patterns; both signs; the non-finite values."""
+    thorough = tier == "thorough"
+    kinds = {}
+    xs = [0.0, -0.0, 1.0, -1.0, 0.1, 0.2, 0.3, 0.5, 1.5, 4.35, 1e-5, 9.999999999999999e-6, 1e-6, 1.2e-6, 1e-7, 0.001, 0.00012345, 1e15, 1e16, 1e17,
+          999999999999999.9, 9999999999999998.0, 1.2345e15, 1.2345e16, 123456789012345678.0, 1e21, 1e22, 1e23, 9.5e22, 8.5e22, 5e-324, 1e-323,
+          2.225073858507201e-308, 2.2250738585072014e-308, 1.7976931348623157e308, 8.98846567431158e307, 2.0 ** 53, 2.0 ** 53 - 1, 2.0 ** 53 + 2,
+          2.0 ** 52 + 0.5, 2.0 ** 63, 2.0 ** 64, 1.8446744073709552e19, 9.223372036854776e18, 195772.13038928574, 0.30000000000000004,
+          5e-1, 12.0, 120.0, 1.0e2, 123456.0, 12345678.9, 0.1 + 0.7, 100.0 / 3.0, 2.0 / 3.0, 1e100, 1e-100, 1.234e-310, 4.9406564584124654e-324]
+    kinds["fixed boundary values"] = len(xs)
+    step = 1 if thorough else 9
+    pw = [float("1e%d" % e) for e in list(range(-323, 309, step)) + list(range(-8, 26))]
+    pw += [2.0 ** e for e in list(range(-1074, 1024, 5 if thorough else 37)) + list(range(-12, 70, 3))]
+    kinds["powers of ten and of two"] = len(pw)
+    xs += pw
+    short = []
+    for _ in range(1200 if thorough else 120):
+        nd = rng.randint(1, 17)
+        m = rng.randint(10 ** (nd - 1), 10 ** nd - 1)
+        e = rng.choice([rng.randint(-30, 30), rng.randint(-330, 300), rng.randint(-8, 8)])
+        try:
+            f = float("%de%d" % (m, e))
+        except OverflowError:
+            continue
+        if f != float("inf"):
+            short.append(f)
+    kinds["decimals of 1..17 digits"] = len(short)
+    xs += short
+    rnd = []
+    for _ in range(4000 if thorough else 260):
+        b = rng.getrandbits(64)
+        if rng.random() < 0.5:
+            # moderate exponents: the layouts without an exponent part
+            b = (b & ~(0x7FF << 52)) | ((1023 + rng.randint(-40, 70)) << 52)
+        rnd.append(struct.unpack(">d", struct.pack(">Q", b))[0])
+    kinds["random bit patterns (half of them with moderate exponents)"] = len(rnd)
+    xs += rnd
+    xs += [-x for x in xs[2:40]]
+    out = [struct.pack(">d", x) for x in xs]
+    out += [bytes.fromhex(h) for h in ("7ff0000000000000", "fff0000000000000", "7ff8000000000000", "7ff0000000000001", "ffffffffffffffff",
+                                       "000fffffffffffff", "0010000000000000", "0010000000000001", "7fefffffffffffff", "7feffffffffffffe",
+                                       "0000000000000002", "8000000000000001", "3ff0000000000001", "3fefffffffffffff", "4340000000000001")]
+    seen, uniq = set(), []
+    for b in out:
+        if b not in seen:
+            seen.add(b)
+            uniq.append(b)
+    return uniq, kinds
+
+
+def float_correspondence(outcome, tier, seed):
+    """serde_json's spelling of a binary64 (through xt: MessagePack float64 -> JSON) against the model's (RY cases); and the
+    model's own bounded search must succeed on every finite value (the hypothesis [ryu_ok] of the read-back theorems)."""
+    rng = random.Random(seed + 31337)
+    pool, kinds = float_pool(rng, tier)
+    reqs = [{"id": i, "to": "json", "calls": [{"input": "cb" + b.hex(), "from": "msgpack", "mode": "slice"}]} for i, b in enumerate(pool)]
+    resps = common.harness_batch(reqs, timeout=1800, jobs=16)
+    model = common.run_driver_lines(["RY %df %s" % (i, b.hex()) for i, b in enumerate(pool)], jobs=16)
+    layouts = {}
+    for i, b in enumerate(pool):
+        got = shared.session_result(resps[i])
+        st, _, mh = model.get("%df" % i, "missing -").partition(" ")
+        mtxt = bytes.fromhex(mh).decode("ascii", "replace") if mh not in ("", "-") else ""
+        impl = bytes.fromhex(got[2]).decode("ascii", "replace") if got[0] == "ok" and got[2] not in ("", "-", None) else "%s %s" % (got[0], got[1][:100])
+        lay = ("null" if mtxt == "null" else "exponent" if "e" in mtxt else "leading zeros" if mtxt.lstrip("-").startswith("0.") else
+               "integer.0" if mtxt.endswith(".0") else "point inside")
+        layouts[lay] = layouts.get(lay, 0) + 1
+        if st == "notfound":
+            outcome.disagreements.append({"what": "the float-spelling model's bounded search found no spelling for a finite binary64 (the hypothesis ryu_ok of the read-back theorems fails on this value)",
+                                          "bits_hex": b.hex(), "implementation": impl})
+        elif impl != mtxt + "\n":
+            outcome.disagreements.append({"what": "MessagePack float64 -> JSON: the text xt writes differs from the model of serde_json's serialize_f64 / ryu (JsonFloatModel.json_f64)",
+                                          "bits_hex": b.hex(), "input_hex": "cb" + b.hex(), "implementation": impl[:80], "model": mtxt[:80]})
+    outcome.evaluations += len(pool)
+    outcome.traces_validated += len(pool)
+    outcome.distinct_nontrivial += len(pool)
+    outcome.extra["float_spelling_correspondence"] = {"values": len(pool), "kinds": kinds, "layouts_of_the_model_output": layouts,
+                                                      "compared": "the bytes xt writes for a MessagePack float64 translated to JSON, with the model's text plus a line break"}
+
+
 def correspondence(outcome, tier, seed):
+    float_correspondence(outcome, tier, seed)
     rng = random.Random(seed + 2718)
     ins, kinds = inputs(rng, tier)
     reqs = []
     for i, d in enumerate(ins):
         reqs.append({"id": 2 * i, "to": "msgpack", "calls": [{"input": shared.hx(d), "from": "json", "mode": "slice"}]})
         reqs.append({"id": 2 * i + 1, "to": "msgpack", "calls": [{"input": shared.hx(d), "from": "json", "mode": "reader", "sched": corpus.random_sched(rng)}]})
-    # JSON -> JSON (the writer model) for the inputs the slice path translates
+    # JSON -> JSON (the writer model, floats included) for the inputs the slice path translates
     wreqs = [{"id": i, "to": "json", "calls": [{"input": shared.hx(d), "from": "json", "mode": "slice"}]} for i, d in enumerate(ins)]
     resps = common.harness_batch(reqs, timeout=1800, jobs=16)
     wresps = common.harness_batch(wreqs, timeout=1800, jobs=16)
